@@ -77,8 +77,10 @@ def write_modfile():
     return path
 
 
-def build_test(pid, race=False):
-    cfg = PROPS[pid]
+def build_test(pid, race=False, pkg=None):
+    cfg = dict(PROPS[pid])
+    if pkg:
+        cfg["pkg"] = pkg  # a run spec may borrow a sub-check that lives in another property's package
     modfile = write_modfile()
     bd = build_dir()
     os.makedirs(os.path.join(bd, "bin"), exist_ok=True)
@@ -230,13 +232,11 @@ def run_property(pid, tier, seed):
     evidence_path = os.path.join(ROOT, "evidence", pid + ".json")
     inconclusive = []
 
-    need_race = any(s.get("race") for s in cfg["runs"])
-    need_plain = any(not s.get("race") for s in cfg["runs"])
     bins = {}
-    if need_plain:
-        bins[False] = build_test(pid, race=False)
-    if need_race:
-        bins[True] = build_test(pid, race=True)
+    for s in cfg["runs"]:
+        key = (s.get("pkg", cfg["pkg"]), bool(s.get("race")))
+        if key not in bins:
+            bins[key] = build_test(pid, race=key[1], pkg=key[0])
     clidir = None
     if cfg.get("cli"):
         clidir = build_cli()
@@ -256,10 +256,10 @@ def run_property(pid, tier, seed):
     for spec in [s for s in cfg["runs"] if not (s.get("fuzz") or s.get("serial"))]:
         while len([pr for pr in all_procs if pr["p"].poll() is None]) >= budget:
             time.sleep(0.2)
-        all_procs += run_spec(pid, bins[bool(spec.get("race"))], spec, tier, seed, rundir, clidir)
+        all_procs += run_spec(pid, bins[(spec.get("pkg", cfg["pkg"]), bool(spec.get("race")))], spec, tier, seed, rundir, clidir)
     wait_procs(all_procs)
     for spec in [s for s in cfg["runs"] if (s.get("fuzz") or s.get("serial"))]:
-        procs = run_spec(pid, bins[bool(spec.get("race"))], spec, tier, seed, rundir, clidir)
+        procs = run_spec(pid, bins[(spec.get("pkg", cfg["pkg"]), bool(spec.get("race")))], spec, tier, seed, rundir, clidir)
         wait_procs(procs)
         all_procs += procs
 
@@ -301,6 +301,8 @@ def run_property(pid, tier, seed):
                 base = os.path.basename(f)
                 if base.endswith(".json"):
                     base = base[:-5] + "-" + pr["spec"]["name"] + ".json"
+                if not base.startswith(pid + "-"):
+                    base = pid + "-" + re.sub(r"^C\d\d-", "", base)  # case of a borrowed sub-check: filed under this property
                 dst = os.path.join(ROOT, "replays", base)
                 shutil.copyfile(f, dst)
                 kind, sub = "?", "?"
@@ -389,7 +391,14 @@ def run_property(pid, tier, seed):
 def cmd_replay(pid, path):
     cfg = PROPS[pid]
     race = all(s.get("race") for s in cfg["runs"])
-    b = build_test(pid, race=race)
+    pkg = None
+    try:
+        owner = json.load(open(path)).get("property")
+        if owner and owner != pid and owner in PROPS and any(s.get("pkg") == PROPS[owner]["pkg"] for s in cfg["runs"]):
+            pkg = PROPS[owner]["pkg"]  # the case comes from a sub-check borrowed from that property's package
+    except Exception:
+        pass
+    b = build_test(pid, race=race, pkg=pkg)
     if b is None:
         return 2
     clidir = build_cli() if cfg.get("cli") else None
@@ -423,9 +432,9 @@ def cmd_setup():
     with concurrent.futures.ThreadPoolExecutor(max_workers=4) as ex:
         futs = []
         for pid, cfg in PROPS.items():
-            races = set(bool(s.get("race")) for s in cfg["runs"])
-            for r in races:
-                futs.append(ex.submit(build_test, pid, r))
+            keys = set((s.get("pkg", cfg["pkg"]), bool(s.get("race"))) for s in cfg["runs"])
+            for pk, r in keys:
+                futs.append(ex.submit(build_test, pid, r, pk))
         for f in futs:
             if f.result() is None:
                 rc = 1
